@@ -49,6 +49,8 @@ def uf_axioms(C: Ctx):
                 y, x = ae[0], al[0]
                 ax.append(z3.Implies(x == re_, rl == y))
                 ax.append(z3.Implies(z3.And(y == rl, x > 0), re_ == x))
+                # exp is strictly increasing and exp(log x) = x:  y < log x  <=>  exp y < x
+                ax.append(z3.Implies(x > 0, (y < rl) == (re_ < x)))
                 ax.append(z3.Implies(z3.And(x > 0, x * re_ == 1), rl == -y))
     # exp(a) * exp(b) relations: exp(a+b) -- instantiate for triples only when small
     for fam in ("exp", "exp10"):
